@@ -10,23 +10,33 @@
  * clock is below the smallest clock of [bad0, next), or the first event of the stream when the window still
  * reaches it.
  *
- * HOW: the body of execute_sort_plan is verified with its six callees REPLACED by contracts stated over one ghost
- * description of the scene (below); each callee contract is ENFORCED against the real callee in its own group of
- * this file (a5_leaf_*), so nothing is assumed about the unit's own code.  The composition is loop-free.
+ * HOW: the body of execute_sort_plan is verified (group a5_execute_sort_plan) with its six callees REPLACED by
+ * contracts stated over one ghost description of the scene (below); each callee contract is ENFORCED against the
+ * real callee in its own group of this file (a5_leaf_find_min_clock, _find_destination, _sort_buf, _write_stream,
+ * _rebuild_ring, _ring_check); sort_buf in turn is verified with its three walkers replaced by contracts enforced
+ * in a5_leaf_count_events, _index_events, _write_events.  So nothing is assumed about the unit's own code, and both
+ * compositions are loop-free.  c16_a5sortplan_e2e.c re-uses the contract of execute_sort_plan for an end-to-end
+ * lemma on stream_winsort.
  *
  * THE SCENE -- the bound of every group of this file, chosen for cost (memcpy with a symbolic length and reads at
  * symbolic offsets are what CBMC pays for here: HOWTO pitfalls, DESIGN 3; the first version of this file with
  * symbolic event sizes produced 9 M clauses for TWO events and did not finish):
  *   - the mapped stream is an object of A5_MEM bytes: 16 arbitrary bytes (earlier events), then K = 1..A5_K whole
  *     NON-JUMBO events whose SIZES ARE COMPILE-TIME CONSTANTS of the group (A5_S0..A5_S3, each one of the sizes a
- *     flags byte can announce: 12, 14..28; groups exist for several MIXED patterns), then `next` (the OU] that
- *     closes the region; 12 bytes, only its address matters), then arbitrary bytes; all CONTENT is arbitrary
- *     apart from the flags nibbles announcing these sizes and clocks below 2^63 (known finding: cmp_ev is signed);
+ *     flags byte can announce: 12, 14..28; default 12, 28, 16, 20; pattern B of the thorough tier: 28, 14, 15),
+ *     then `next` (the OU] that closes the region; 12 bytes, only its address matters), then 16 arbitrary bytes;
+ *     all CONTENT is arbitrary apart from the flags nibbles announcing these sizes and clocks below 2^63 (known
+ *     finding of this plan: cmp_ev compares as signed);
  *   - the ring has A5_RN slots (look-back A5_RN - 1) and holds the last min(K, count) of these events, in any
  *     head/tail position (wrapped or not) admitted by the ring invariant of stream_winsort;
  *   - bad0 is any of the K events.
+ *   NOT covered: jumbo events (CBMC checks the 4-byte read of payload.jumbo.size as a 16-byte access, cf. c19_stream.c),
+ *   regions of more than 4 events, rings of more than 4 slots.
+ * All spec functions (sc_*) read memory at LITERAL offsets only: a symbolic position is matched against its
+ * finitely many candidates (the same clauses with byte_extract at a symbolic offset did not finish).
  * Outside the unit (trusted, most general): qsort (leaf sort_buf), pwrite (leaf write_stream), malloc / calloc /
- * free; ovni_ev_size is the real rt/ovni.c (sizes come from the flags bytes of the events).
+ * free (allocation model below), memcpy (byte-wise model in the groups that say so); ovni_ev_size is the real
+ * rt/ovni.c (sizes come from the flags bytes of the events).
  * ASSUMED (DESIGN 4, C16): bytes written with pwrite to the stream file are visible through the MAP_PRIVATE mapping
  * (Linux) -- the code relies on it (rebuild_ring and ring_check re-read the mapping after the write); here the
  * mapping IS the file: the pwrite model stores into it. */
@@ -61,11 +71,12 @@ int g_said;
 #define A5_SIZE_OK(s) ((s) == 12 || ((s) >= 14 && (s) <= 28))
 _Static_assert(A5_K >= 1 && A5_K <= A5_KMAX && A5_RN >= 2 && A5_RN <= A5_RNMAX, "bounds of this file");
 _Static_assert(A5_SIZE_OK(A5_S0) && A5_SIZE_OK(A5_S1) && A5_SIZE_OK(A5_S2) && A5_SIZE_OK(A5_S3), "sizes a flags byte can announce");
+/* (events that a group with A5_K < 4 never lays out take no room) */
 #define A5_O0 16L
 #define A5_O1 (A5_O0 + A5_S0)
-#define A5_O2 (A5_O1 + A5_S1)
-#define A5_O3 (A5_O2 + A5_S2)
-#define A5_O4 (A5_O3 + A5_S3)
+#define A5_O2 (A5_O1 + (A5_K >= 2 ? A5_S1 : 0))
+#define A5_O3 (A5_O2 + (A5_K >= 3 ? A5_S2 : 0))
+#define A5_O4 (A5_O3 + (A5_K >= 4 ? A5_S3 : 0))
 #define A5_MEM (A5_O4 + 12 + 16)
 /* offset of input event k (k == K: of `next`); a constant whenever k is */
 #define OC(k) ((k) <= 0 ? A5_O0 : (k) == 1 ? A5_O1 : (k) == 2 ? A5_O2 : (k) == 3 ? A5_O3 : A5_O4)
@@ -216,6 +227,10 @@ qsort(void *base, size_t nmemb, size_t size, int (*compar)(const void *, const v
 	for (long i = 0; i + 1 < A5_K; i++) {
 		if (i + 1 >= (long) nmemb) continue;
 		int c = compar(&t[i], &t[i + 1]);
+		int c2 = compar(&t[i + 1], &t[i]);
+		/* ISO C 7.22.5 p4: the comparison function must be a consistent order -- checked, not assumed (an inconsistent
+		 * one would otherwise only cut paths at the assumption below) */
+		VASSERT((c < 0) == (c2 > 0) && (c == 0) == (c2 == 0), "qsort: the comparison function orders each pair consistently in both directions");
 		__CPROVER_assume(c <= 0);                                        /* consistent with the comparison */
 #ifdef A5_STABLE
 		__CPROVER_assume(c != 0 || g_perm[g_f + i] < g_perm[g_f + i + 1]);
@@ -223,9 +238,18 @@ qsort(void *base, size_t nmemb, size_t size, int (*compar)(const void *, const v
 	}
 }
 struct stream;
+#ifndef A5_E2E
 int stream_step(struct stream *stream) { (void) stream; return nondet_int(); }
 struct ovni_ev g_cur_ev;
 struct ovni_ev *stream_ev(struct stream *stream) { (void) stream; return &g_cur_ev; }
+#else
+/* end-to-end lemma (c16_a5sortplan_e2e.c): POSIX calls of stream_winsort, any result, logged */
+int g_fd; unsigned g_open_calls, g_sync_calls, g_close_calls; int g_close_fd, g_sync_fd;
+static int a5_open(const char *path, int flags) { (void) path; g_open_calls++; VASSERT(flags == O_WRONLY, "opened for writing only"); if (nondet_bool()) { g_die_ok = 1; return -1; } return g_fd; }
+#define open(path, flags) a5_open((path), (flags))
+int fdatasync(int fd) { g_sync_calls++; g_sync_fd = fd; int r = nondet_int(); if (r < 0) g_die_ok = 1; return r; }
+int close(int fd) { g_close_calls++; g_close_fd = fd; int r = nondet_int(); if (r < 0) g_die_ok = 1; return r; }
+#endif
 
 #define malloc(n) a5_malloc(n)
 #define calloc(n, m) a5_calloc((n), (m))
@@ -580,17 +604,34 @@ __CPROVER_ensures(sc_same_out_cpy())
 /* ================================================================= execute_sort_plan (composition: loop-free) */
 #ifdef A5_EXEC
 uint64_t g_min; long g_dj, g_cnt, g_head;   /* pre-state: smallest clock of [bad0, next), destination (live index), window size */
+uint64_t g_ck[A5_KMAX];                     /* pre-state: clock of input event k */
+static _Bool sc_ck_bound(void)
+{
+	_Bool ok = 1;
+	for (long k = 0; k < A5_K; k++) if (k < g_K) ok = ok & (g_ck[k] == CLKAT(a5_mem, OC(k)));
+	return ok;
+}
+/* output event j carries the clock input event g_perm[j] had */
+static _Bool sc_ck_same(void)
+{
+	_Bool ok = 1;
+	for (long j = 0; j < A5_K; j++)
+		if (INREG(j)) for (long c = 0; c < A5_K; c++) if (PERMJ(j) == c) ok = ok & (sc_mc(g_P[j]) == g_ck[c]);
+	return ok;
+}
+#ifndef A5_E2E
 int g_fd;
+#endif
 long w_K, w_b, w_cnt, w_head, w_dj;
 WITNESS(execute_sort_plan);
 int c_execute_sort_plan(struct sortplan *sp)
-__CPROVER_requires(sp == &a5_sp && __CPROVER_pointer_equals(sp->r, R) && __CPROVER_pointer_equals(sp->base, a5_mem) && sp->fd == g_fd)
+__CPROVER_requires(__CPROVER_pointer_equals(sp->r, R) && __CPROVER_pointer_equals(sp->base, a5_mem) && sp->fd == g_fd)
 __CPROVER_requires(RING_SHAPE(R) && RING_INV(R) && SHAPE && WINDOW_OK(R))
 __CPROVER_requires(SLOTS_OK(R))
 __CPROVER_requires(sc_wf_in(0))
 __CPROVER_requires(0 <= g_b && g_b < g_K && __CPROVER_pointer_equals(sp->bad0, EVPTR_O(g_b)) && __CPROVER_pointer_equals(sp->next, EVPTR_O(g_K)))
 /* pre-state facts named for the postconditions */
-__CPROVER_requires(g_min == sc_minclk() && g_cnt == CNT(R) && g_head == R->head && g_dj == sc_destj(CNT(R), g_min))
+__CPROVER_requires(g_min == sc_minclk() && g_cnt == CNT(R) && g_head == R->head && g_dj == sc_destj(CNT(R), g_min) && sc_ck_bound())
 /* SPECIFICATION of `first`: the most recent window entry strictly earlier than the region, else the oldest entry */
 __CPROVER_requires(g_f == g_K - g_cnt + (g_dj >= 0 ? g_dj : 0))
 /* observers */
@@ -616,7 +657,7 @@ __CPROVER_ensures(RV != 0 || (g_pos >= OC(g_f) && g_pos < OC(g_K)) || a5_mem[g_p
 /* the region holds a permutation of the whole events that were there: sizes preserved (layout g_P, and the flags
  * bytes found in memory announce exactly these sizes), and the observed byte of the observed input event sits at the
  * same position inside the output event that the permutation assigns to it */
-__CPROVER_ensures(RV != 0 || (sc_perm() && sc_wf_out()))
+__CPROVER_ensures(RV != 0 || (sc_perm() && sc_wf_out() && sc_ck_same()))
 __CPROVER_ensures(RV != 0 || !(g_s >= g_f) || ((INREG(0) && g_perm[0] == g_s) || (INREG(1) && g_perm[1] == g_s) || (INREG(2) && g_perm[2] == g_s) || (INREG(3) && g_perm[3] == g_s)))
 __CPROVER_ensures(RV != 0 || !(INREG(0) && g_perm[0] == g_s) || sc_mb(g_P[0] + g_bb) == g_oldbyte)
 __CPROVER_ensures(RV != 0 || !(INREG(1) && g_perm[1] == g_s) || sc_mb(g_P[1] + g_bb) == g_oldbyte)
@@ -749,11 +790,16 @@ void h_leaf_sort_buf(void)
 	g_mptr = A5_OUTPTR; g_mfreed = 0;     /* the caller's block */
 	sort_buf((uint8_t *) EVPTR_O(g_f), A5_OUTPTR, OC(g_K) - OC(g_f));
 	REACH("sort_buf returns");
+#if A5_K >= 2
+	if (g_K == 2 && g_f == 0 && g_perm[0] == 1 && CLKAT(a5_mem, A5_O1) < CLKAT(a5_mem, A5_O0)) REACH("two events with different clocks exchanged");
+#endif
 #if A5_K >= 3
 	if (g_K - g_f == 3 && g_perm[g_f] == g_f + 2 && g_perm[g_f + 1] == g_f && g_perm[g_f + 2] == g_f + 1) REACH("last event moved to the front");
 	if (g_K - g_f == 3 && g_perm[g_f] == g_f && g_perm[g_f + 1] == g_f + 1) REACH("already sorted");
 #ifndef A5_STABLE
 	if (g_K - g_f >= 2 && CLKAT(a5_mem, OC(g_f < 0 || g_f > 3 ? 0 : g_f)) == CLKAT(a5_mem, OC(g_f < 0 || g_f > 2 ? 1 : g_f + 1)) && g_perm[g_f] == g_f + 1 && g_perm[g_f + 1] == g_f) REACH("an unstable qsort may swap equal clocks");
+#else
+	if (g_K - g_f >= 2 && CLKAT(a5_mem, OC(g_f < 0 || g_f > 3 ? 0 : g_f)) == CLKAT(a5_mem, OC(g_f < 0 || g_f > 2 ? 1 : g_f + 1)) && g_perm[g_f] == g_f && g_perm[g_f + 1] == g_f + 1) REACH("equal clocks kept in order by a stable qsort");
 #endif
 #endif
 }
